@@ -274,6 +274,8 @@ RulesLoop:
 	}
 	// Reset Skip counter at the end of each phase. Skip actions work only within the current processing phase
 	tx.Skip = 0
+	// Same for a pending skipAfter whose marker was not found in this phase: it must not swallow the rules of later phases
+	tx.SkipAfter = ""
 
 	tx.stopWatches[phase] = time.Now().UnixNano() - ts
 	return tx.IsInterrupted()
